@@ -118,6 +118,9 @@ class NdContract(Contract):
                 for p_, i_ in zip(kept, ix):
                     full[p_] = i_
                 return old(*full)
+        if v.kind in ("series", "frame") and len(dims) >= 1:
+            # pandas squeeze keeps the labels of the remaining axis (a one-column frame becomes a Series with the same row index)
+            return self._derive(v, shape=tuple(dims), kind="series" if len(dims) == 1 else v.kind, prov=v.prov, cell=cell)
         return self._derive(v, shape=tuple(dims), kind="ndarray", prov="ERASED", cell=cell)
 
     # ---- hooks
@@ -212,7 +215,7 @@ class NdContract(Contract):
             shp = a0.shape if len(a0.shape) == 1 else (size_of(a0.shape),)
             if len(a0.shape) > 1:
                 raise PyRaise(Exc("ValueError", ("Data must be 1-dimensional",)))
-            prov = "DEFAULT" if a0.prov in ("ERASED", "DEFAULT") and "index" not in kwargs else "USER"
+            prov = "DEFAULT" if a0.prov in ("ERASED", "DEFAULT") and kwargs.get("index") is None else "USER"
             return self._derive(a0, shape=shp, kind="series", prov=prov)
         if name in ("pandas.DataFrame",) and is_nd(a0):
             prov = "DEFAULT" if a0.prov in ("ERASED", "DEFAULT") and "index" not in kwargs and "columns" not in kwargs else "USER"
